@@ -25,11 +25,85 @@ def multinomial_prob(c, p):
     return pr
 
 
+NARROW_DTYPES = ('int8', 'uint8', 'int16', 'uint16', 'int32', 'uint32', 'int64', 'uint64')
+# N (N-1) (N-2) is formed in the 64-bit integer that np.sum returns; the generated vectors stay below the size where that product
+# itself leaves int64 (N = 2^21), so that every intermediate of the unchanged formulas is exact
+NCAP = 2 * 10 ** 6
+
+
+def ff(n, r):
+    out = 1
+    for j in range(r):
+        out *= n - j
+    return out
+
+
+def max_count(dtype, r):
+    """largest count n whose falling factorial n (n-1) ... (n-r+1) still fits the integer dtype"""
+    top = int(np.iinfo(dtype).max)
+    n = max(r, int(round(top ** (1.0 / r))) - 2)
+    while ff(n + 1, r) <= top:
+        n += 1
+    while ff(n, r) > top:
+        n -= 1
+    return n
+
+
+def narrow_vectors(rng, quick):
+    """count vectors to be stored in a fixed-width integer dtype.  order 2: every n_i (n_i - 1) fits the dtype (pc_n is exact
+    term by term); order 3: every n_i (n_i - 1) (n_i - 2) fits as well (varpc_n / stdpc_n too).  Counts are concentrated near
+    the largest admissible value so that the SUMS of the terms leave the range of the dtype although no single term does."""
+    out = []
+    for dt in NARROW_DTYPES:
+        top = int(np.iinfo(dt).max)
+        for order in (2, 3):
+            m = min(max_count(dt, order), NCAP // 2)
+            need = {r: top // ff(m, r) + 1 for r in range(2, order + 1)}     # entries equal to m that push sum ff(n, r) over the top
+            vs = []
+            for r, k in need.items():
+                if k * m <= NCAP - 3 and k <= (1600 if quick else 10 ** 5):
+                    vs.append([m] * k + [m - 1, 1, 0])
+            kbig = [k for k in need.values() if k * m <= NCAP and k <= 1600]
+            for j in range(6 if quick else 40):
+                if j % 3 == 2 and kbig and max(kbig) > 8 and (not quick or j == 2):
+                    # many entries, almost all next to the largest admissible count: the lower-order sum leaves the range as well
+                    lo = max(kbig) + max(kbig) // 10 + 1
+                    K = rng.randint(min(lo, NCAP // m), min(2 * max(kbig), NCAP // m))
+                    v = [max(0, m - rng.randint(0, 2)) if rng.random() < 0.9 else rng.randint(0, m) for _ in range(K)]
+                else:
+                    K = rng.randint(2, 8) if j % 3 else rng.randint(2, 40)
+                    v = [max(0, rng.choice([m, m, m - 1, m - rng.randint(0, 3), rng.randint(0, m), rng.randint(0, m), 0, 1, 2]))
+                         for _ in range(K)]
+                while sum(v) > NCAP:
+                    v.pop()
+                vs.append(v)
+            vs.sort(key=len)
+            out += [(v, dt, order) for v in vs]
+    return out
+
+
+def show(v):
+    return str(v) if len(v) <= 12 else '[%s, ... (%d counts, N=%d, max %d)]' % (', '.join(map(str, v[:6])), len(v), sum(v), max(v))
+
+
+def var_scale(v):
+    """magnitude of the three terms of varpc_n (their sum may cancel by many orders of magnitude)"""
+    N = sum(v)
+    if N < 4:
+        return 0.0
+    p2 = Fraction(sum(ff(c, 2) for c in v), ff(N, 2))
+    p3 = Fraction(sum(ff(c, 3) for c in v), ff(N, 3))
+    beta = Fraction(2 * (2 * N - 3), (N - 2) * (N - 3))
+    return float(4 * Fraction(N - 2, ff(N, 2)) * (1 + beta) * p3 + beta * p2 ** 2 + Fraction(2, ff(N, 2)) * (1 + beta) * p2)
+
+
 def run(ctx):
     import pyrepseq.stats as st
+    import pandas as pd
     rng = ctx.rng
     ctx.rule = ('(a) every count vector with N <= Nmax over K <= 4 categories: pc_n, varpc_n, stdpc_n, stdpc, pc against the '
-                'generated exact-rational functions; (b) random vectors up to N = 10^6; (c) the expectation itself on the '
+                'generated exact-rational functions; (b) random vectors up to N = 10^6, and count vectors stored as int8 ... uint64 arrays / Series '
+                'whose terms n(n-1), n(n-1)(n-2) fit the dtype while their sums do not (N < 2*10^6); (c) the expectation itself on the '
                 'implementation: for each (N, K, p) on a rational grid, sum over ALL count vectors of implementation value x exact '
                 'multinomial probability compared with sum p^2 and Var(pc). non-trivial := at least two categories occupied, N >= 4')
     Nmax = 9 if ctx.quick else 13
@@ -39,26 +113,48 @@ def run(ctx):
         K = rng.randint(1, 40)
         vecs.append([rng.choice([0, 1, 1, 2, 3, 10, 500, rng.randint(0, 10 ** 5)]) for _ in range(K)])
     ctx.exhaustive = True
+    entries = [(v, None, 3) for v in vecs] + narrow_vectors(rng, ctx.quick)
     reqs = []
-    for v in vecs:
+    for v, _, _ in entries:
         reqs += [('api_gen_pc_n', [v]), ('api_gen_varpc_n', [v])]
     outs = ctx.oracle.run_parallel(reqs)
-    for k, v in enumerate(vecs):
+    over = {}
+    for k, (v, dt, order) in enumerate(entries):
         (pdef, pq), (vdef, vq) = outs[2 * k], outs[2 * k + 1]
         N = sum(v)
         nt = N >= 4 and sum(1 for x in v if x > 0) >= 2
-        arr = np.array(v)
-        sample = np.repeat(np.arange(len(v)), arr)
-        checks = [('pc_n', call_impl(st.pc_n, arr), pq if pdef else None),
-                  ('pc_n[list]', call_impl(st.pc_n, list(v)), pq if pdef else None),
-                  ('varpc_n', call_impl(st.varpc_n, arr), vq if vdef else None)]
-        if N >= 2:
-            checks.append(('pc[sample]', call_impl(st.pc, sample), pq if pdef else None))
-        if vdef and vq >= 0:
-            checks.append(('stdpc_n', call_impl(st.stdpc_n, arr), ('sqrt', vq)))
-            checks.append(('stdpc[sample]', call_impl(st.stdpc, sample), ('sqrt', vq)))
-        for name, impl, exp in checks:
-            ctx.case(sample=dict(func=name, counts=v, impl=str(impl), model=str(exp)) if nt and k % 97 == 0 else None,
+        pexp, vexp = (pq if pdef else None), (vq if vdef else None)
+        if dt is None:
+            arr = np.array(v)
+            sample = np.repeat(np.arange(len(v)), arr)
+            checks = [('pc_n', st.pc_n, arr, pexp), ('pc_n[list]', st.pc_n, list(v), pexp), ('varpc_n', st.varpc_n, arr, vexp)]
+            if N >= 2:
+                checks.append(('pc[sample]', st.pc, sample, pexp))
+            if vdef and vq >= 0:
+                checks.append(('stdpc_n', st.stdpc_n, arr, ('sqrt', vq)))
+                checks.append(('stdpc[sample]', st.stdpc, sample, ('sqrt', vq)))
+            tag = ''
+        else:
+            # the same counts held in a fixed-width integer dtype (array and pandas Series); the same objects go through all calls
+            arr = np.array(v, dtype=dt)
+            ser = pd.Series(arr.copy(), index=['c%d' % i for i in range(len(v))])
+            assert arr.tolist() == v
+            top = int(np.iinfo(dt).max)
+            for r in range(2, order + 1):
+                if sum(ff(c, r) for c in v) > top:
+                    over[(dt, order, r)] = over.get((dt, order, r), 0) + 1
+            tag = '[%s]' % dt
+            checks = [('pc_n' + tag, st.pc_n, arr, pexp), ('pc_n[Series %s]' % dt, st.pc_n, ser, pexp)]
+            if order >= 3:
+                checks += [('varpc_n' + tag, st.varpc_n, arr, vexp), ('varpc_n[Series %s]' % dt, st.varpc_n, ser, vexp)]
+                if vdef and vq >= 0:
+                    checks.append(('stdpc_n' + tag, st.stdpc_n, arr, ('sqrt', vq)))
+        vs = var_scale(v) if vdef else 0.0
+        for name, fn, arg, exp in checks:
+            impl = call_impl(fn, arg)
+            if impl[0] == 'ok' and isinstance(impl[1], pd.Series):
+                impl = ('exc', 'returned a Series instead of a number')
+            ctx.case(sample=dict(func=name, counts=v, impl=str(impl), model=str(exp)) if nt and k % 97 == 0 and len(v) < 50 else None,
                      nontrivial_key=(name, tuple(v)) if nt else None)
             if exp is None:
                 # undefined in the model (zero denominator): implementation gives nan/inf or raises
@@ -68,14 +164,35 @@ def run(ctx):
                                           (exp[1] < 1e-18 and (impl[1] != impl[1] or abs(impl[1]) < 1e-6)))
             else:
                 ok = impl[0] == 'ok' and close(impl[1], exp, rel=1e-9, abs_=1e-12)
+                if ok and name.startswith('varpc_n'):
+                    # the three terms of varpc_n cancel; measured against their size, not against an absolute floor
+                    ok = abs(float(impl[1]) - float(exp)) <= 1e-9 * abs(float(exp)) + 1e-10 * vs
             if not ok:
                 ctx.violation('property', '%s(%s) = %s but the formula the unbiasedness theorems are about gives %s' %
-                              (name, v, impl, exp), dict(func=name, counts=v, impl=str(impl), expected=str(exp)),
+                              (name, show(v), impl, exp if not isinstance(exp, Fraction) else '%s (= %r)' % (exp, float(exp))),
+                              dict(func=name, dtype=dt, counts=v, impl=str(impl), expected=str(exp)),
                               site='stats.' + name.split('[')[0])
+        # the estimators are functions of the counts: the caller's count vector is the same afterwards
+        for nm, obj in ([('array', arr)] if dt is None else [('array', arr), ('Series', ser)]):
+            after = np.asarray(obj).tolist()
+            ctx.case(nontrivial_key=None)
+            if after != v or str(np.asarray(obj).dtype) != (dt or str(np.array(v).dtype)):
+                ctx.violation('property', 'the count %s %s%s handed to pc_n / varpc_n / stdpc_n holds %s afterwards: a second estimate from the '
+                              'same counts is no longer the estimator of the theorems' % (nm, show(v), tag, show(after)),
+                              dict(func='input-unchanged', dtype=dt, counts=v, after=after), site='stats.pc_n')
         if k < 30:
             ctx.add_vm('api_gen_varpc_n', [v], outs[2 * k + 1])
         if len(ctx.violations) > 10:
             return
+    # the generator is only worth something if sums beyond the dtype actually occurred (term by term in range)
+    for dt in NARROW_DTYPES[:5]:
+        for order, r in ((2, 2), (3, 2), (3, 3)):
+            ctx.case(nontrivial_key=('overflowing-sum', dt, order, r))
+            if not over.get((dt, order, r)):
+                ctx.violation('proof', 'generator: no %s count vector (all terms of order %d in range) whose sum of order-%d falling '
+                              'factorials exceeds the dtype' % (dt, order, r), dict(dtype=dt, order=order, r=r), site='harness.c06')
+    ctx.note('fixed-width count vectors with a sum beyond the dtype range, dtype/terms in range up to order/order of the sum: %s' %
+             ', '.join('%s/%d/%d: %d' % (d, o, r, c) for (d, o, r), c in sorted(over.items())))
     # (c) unbiasedness evaluated on the implementation by exact enumeration
     grid = [(N, K) for N in (4, 5, 6, 7) for K in (2, 3)] if ctx.quick else \
            [(N, K) for N in range(4, 11) for K in (2, 3, 4) if not (N > 8 and K == 4)]
